@@ -573,6 +573,9 @@ def run(ctx):
         if k < 3:
             samples.append({"line": line_of(sc), "status": status, "records": len(rec), "oracle_failures": nf})
     rcode, nviol = V.finish()
+    import glob, shutil
+    for d in glob.glob("/tmp/c08_out_*"):          # output folders of runs that ended in a sanitizer abort / time-out
+        shutil.rmtree(d, ignore_errors=True)
     lines = [line_of(s) for s in scenarios]
     cov = {
         "obligations": proof["obligations"], "discharged": proof["discharged"],
